@@ -157,6 +157,8 @@ class G:
             if dtn in ("FLOAT", "DOUBLE"):
                 kinds += ["neg", "abs", "relu", "sublit", "divlit", "opadd", "clip", "floor", "sigmoid", "modlit", "where", "max", "attr",
                           "helper", "leaky", "rsub", "pow"]
+                if dtn == "FLOAT":
+                    kinds += ["lit_only_op"]
             elif dtn in ("INT64", "INT32"):
                 kinds += ["neg", "abs", "sublit", "divlit", "opadd", "modlit", "where", "max", "attr", "rsub", "intdiv_neg"]
             else:
@@ -185,6 +187,11 @@ class G:
                 self.feat.add("mod")
             elif k == "pow":
                 e = f"({e} ** 2)"
+            elif k == "lit_only_op":
+                # an op call whose only operand is a Python literal: nothing to borrow a type from, so FLOAT by Python type
+                e = r.choice([f"({e} * op.Sqrt(2.0))", f"op.Add({e}, op.Exp(1.0))", f"({e} - op.CastLike(0.5, {e}))",
+                              f"op.Sub({e}, op.Sqrt(4.0))"])
+                self.feat.add("literal_only_op_call")
             elif k == "neg":
                 e = f"(-{e})"
             elif k == "abs":
@@ -293,7 +300,8 @@ class G:
         t = self.fresh()
         forms = ["cmp", "shape"]
         if a.dtype.kind in "fi":
-            forms += ["reduce", "cast", "reduce_axes"]
+            # no reduction of an empty tensor: ORT 1.30 returns a size-0 result where the spec (and numpy) say size 1
+            forms += ["reduce", "cast", "reduce_axes"] if a.size > 0 else ["cast"]
         if a.ndim >= 2:
             forms += ["transpose", "matmul"] if a.dtype.kind == "f" else ["transpose"]
         if a.ndim >= 1 and a.size > 0:
@@ -447,11 +455,28 @@ class G:
             if cand:
                 bound = r.choice(cand)[0]
                 self.feat.add("loop_bound_tensor")
+        pre, kill_var = [], None
+        if r.random() < 0.3:
+            # `if c: v = <no read of v>` then a read of v in the same iteration, with v defined just before the loop and dead
+            # after it: v must be carried by the loop (its value survives from the iteration in which the branch was taken)
+            try:
+                u, uv = self.pick(env, lambda a: a.dtype.kind in "fi" and a.size > 0)
+                kill_var = self.fresh("kv")
+                pre = self.emit(f"{kill_var} = {self.expr_like(env, u, 1)}", env, indent)
+                bound = "3"
+            except Bail:
+                pre, kill_var = [], None
         e2 = dict(env)
         e2[i] = RT(np.array(1, dtype=np.int64))
         self.readonly.add(i)
         self.loopvars.add(i)   # the index is only used through op.Cast(i, to=...): Python int vs INT64 tensor readings differ otherwise
         body = []
+        if kill_var is not None:
+            try:
+                body += self._if_kill_then_read(e2, indent + 1, i, kill_var)
+                self.readonly.add(kill_var)
+            except Bail:
+                pass
         use_i = r.random() < 0.5
         for w in carried:
             if use_i and e2[w].a.dtype.kind in "fi":
@@ -476,9 +501,35 @@ class G:
             body.append("    " * (indent + 1) + f"if {cb}:")
             body.append("    " * (indent + 2) + "break")
             self.feat.add("for_with_break")
-        out = ["    " * indent + f"for {i} in range({bound}):"] + body
+        out = pre + ["    " * indent + f"for {i} in range({bound}):"] + body
+        if kill_var is not None:
+            env.pop(kill_var, None)      # dead after the loop
         self.feat.add("for_loop")
         self.must_use.append(carried[-1])
+        return out
+
+    def _if_kill_then_read(self, e2, indent, i, v):
+        r = self.rng
+        vv = e2[v]
+        u, _ = self.pick(e2, lambda a: a.dtype == vv.a.dtype and a.shape == vv.a.shape)
+        w, _ = self.pick(e2, lambda a: a.dtype == vv.a.dtype and a.shape == vv.a.shape, writable=True)
+        if len({u, v, w}) < 3:
+            raise Bail("need three distinct variables")
+        for _ in range(5):
+            rhs = self.expr_like(e2, u, 1)
+            if v not in rhs.replace(u, ""):
+                break
+        else:
+            raise Bail("rhs reads v")
+        c = self.fresh("ck")
+        out = self.emit(f"{c} = (op.Cast({i}, to=7) == {r.choice([0, 1, 1, 2])})", e2, indent)
+        e3 = dict(e2)
+        inner = self.emit(f"{v} = {rhs}", e3, indent + 1)
+        out.append("    " * indent + f"if {c}:")
+        out += inner
+        out += self.emit(f"{w} = ({w} + {v})", e2, indent)
+        self.feat.add("loop_if_kills_then_read")
+        self.must_use.append(w)
         return out
 
     def st_while(self, env, indent, depth):
